@@ -41,6 +41,14 @@ CLAIMED = {
             "DESIGN.md §2.6, §4 C10",
             BASE_NOTE + " Assumed: sync.Mutex/Locker/Cond contracts. Linearizability follows from whole-duration critical sections plus the sequential contracts by the standard coarse-grained-locking meta-theorem (stated, not machine-checked); liveness/fairness are not expressible.",
             TECH),
+    "C11": ("proof",
+            "Sequential contracts of both request queues over the verified linked list's ghost sequence: Put accepts iff not full and appends at the tail, a refused put leaves the content unchanged and logs the element "
+            "to the failure callback; PutForce evicts exactly the oldest elements in order to the overflow callback and leaves size == capacity; GetNoWait/Get return and remove the head (Get: of the content at the last wake-up); "
+            "GetTimeout returning nil implies the ghost clock advanced by at least the timeout; the double queue serves queue 1 before queue 2; executable FIFO/refusal/eviction/priority harnesses; all nopanic with nil callbacks.",
+            "DESIGN.md §5 C11",
+            BASE_NOTE + " Assumed: callbacks only append to a ghost log, monotone clock (SystemNow/Sleep), sync.NewCond, the monitor invariant at wake-up from Cond.Wait (proved before each Wait). "
+            "Exactly-once delivery under concurrency follows from C10's lock discipline plus these sequential contracts (linearizability meta-argument); liveness (returns as soon as an element is available) is not expressible.",
+            TECH),
     "C13": ("proof",
             "Representation predicate and sequence view for the five typed lists and the linked list; every accessor/mutator against the view (append, set, get, remove, ensure's growth policy, "
             "out-of-range indices never return normally), byte layout of Write/Read and their round trip (induction as a loop in the harness), sorting: identity initialisation, "
